@@ -257,6 +257,9 @@ def draw_opts(rng, flavour, quick_damped=True):
         o["normalize"] = str(rng.choice(["default", "default", "L1", "L2", "Linf", "L2phased"]))
     o["strip_exponent"] = bool(rng.integers(0, 2))
     o["interface"] = str(rng.choice(["function", "class"]))
+    o["diis"] = bool(flavour != "L2BP" and rng.random() < 0.15)
+    if flavour == "HV1BP":
+        o["thread_pool"] = bool(o["interface"] == "class" and rng.random() < 0.3)
     return o
 
 
@@ -341,9 +344,13 @@ def run_one_norm(qbp, flavour, tn, o, n, init_arg, site_tags=None, tol=TOL_RUN, 
     elif init_arg is not None:
         kw["messages"] = init_arg
     runkw = {} if tol is None else dict(tol=tol)
+    if o.get("diis"):
+        runkw["diis"] = True
     if o["interface"] == "function":
         r = fn(tn, max_iterations=its, strip_exponent=o["strip_exponent"], info=info, progbar=False, **runkw, **kw)
         return as_value(r), info, None
+    if o.get("thread_pool"):
+        kw["thread_pool"] = 2
     bp = cls(tn, **kw)
     bp.run(max_iterations=its, info=info, progbar=False, **runkw)
     info["converged_attr"] = bool(bp.converged)
@@ -415,6 +422,17 @@ def one_norm_case(rng, flavour, kind, n, data, single=False, n_scalars=0, expone
     return inds, sizes, arrays, parents, dtype
 
 
+def n_message_pairs(flavour, inds, sizes, groups=None):
+    """number of undirected message channels the flavour maintains on this network"""
+    holders = {ix: [t for t, ii in enumerate(inds) if ix in ii] for ix in sizes}
+    if flavour in ("HD1BP", "HV1BP"):
+        return sum(len(h) for h in holders.values())
+    if flavour in ("L1BP", "L2BP"):
+        return len({tuple(sorted((groups[h[0]], groups[h[1]]))) for h in holders.values()
+                    if len(h) == 2 and groups[h[0]] != groups[h[1]]})
+    return sum(1 for h in holders.values() if len(h) == 2)
+
+
 def make_one_norm_case(seed, flavour, kind, n, data):
     """everything of one case of the one-norm value driver, regenerated from its seed"""
     rng = np.random.default_rng(seed)
@@ -437,6 +455,7 @@ def make_one_norm_case(seed, flavour, kind, n, data):
     fill = make_init(rng, init, dtype) if init in ("uniform", "random") else None
     params = dict(flavour=flavour, kind=kind, n=n, data=data, dtype=dtype, exponent=exponent,
                   n_scalars=sum(1 for ii in inds if not ii), n_labels=len(sizes),
+                  n_message_pairs=n_message_pairs(flavour, inds, sizes, groups),
                   size1_labels=sum(1 for v in sizes.values() if v == 1), init=init, seed=seed, **o)
     if groups is not None:
         params["n_groups"] = len(set(groups))
@@ -514,7 +533,8 @@ def make_marginal_case(seed, flavour, kind, n, data):
     else:
         return None
     o = draw_opts(rng, flavour)
-    o.pop("strip_exponent")
+    for k in ("strip_exponent", "diis", "thread_pool"):
+        o.pop(k, None)
     o["interface"] = str(rng.choice(["class", "run_function"]))
     params = dict(flavour=flavour, kind=kind, n=n, data=data, exponent=exponent, seed=seed,
                   n_scalars=sum(1 for ii in inds if not ii), **o)
@@ -752,7 +772,7 @@ def make_two_norm_case(seed, flavour, kind, n, data, vector_like=None, single=No
                     shrinkable = True
     params = dict(flavour=flavour, kind=kind, n=n, data=data, dtype=dtype, exponent=exponent, vector_like=vector_like,
                   n_outer=len(out), size1_labels=sum(1 for v in sizes.values() if v == 1), init=init, seed=seed,
-                  shrinkable=shrinkable, **o)
+                  n_message_pairs=n_message_pairs(flavour, inds, sizes, groups), shrinkable=shrinkable, **o)
     if groups is not None:
         params["n_groups"] = len(set(groups))
     params["full_rank_bonds"] = bool(bond_conditioning(inds, sizes, arrays) >= 1e-3)
@@ -791,7 +811,8 @@ def two_norm_bp(qbp, c, tn, tol=TOL_RUN, site_tags=None):
         bp = qbp.D2BP(tn, **kw)
     else:
         bp = qbp.L2BP(tn, site_tags=site_tags or sorted({f"G{g}" for g in c["groups"]}), **kw)
-    bp.run(max_iterations=its, info=info, progbar=False, **({} if tol is None else dict(tol=tol)))
+    bp.run(max_iterations=its, info=info, progbar=False, diis=bool(o.get("diis")),
+           **({} if tol is None else dict(tol=tol)))
     info["converged_attr"] = bool(bp.converged)
     return bp, info
 
@@ -855,6 +876,8 @@ def two_norm_value(cx):
                     fn = qbp.contract_l2bp
                 if not c["single"]:
                     kw["tol"] = TOL_RUN
+                if o.get("diis"):
+                    kw["diis"] = True
                 got = as_value(fn(tn, max_iterations=max_its(o, len(c["inds"])), strip_exponent=o["strip_exponent"],
                                   info=info, progbar=False, **kw))
             else:
@@ -1014,8 +1037,9 @@ def gauging(cx):
                     cx.inconclusive.append("bp-gauging-and-compression-untruncated: time budget exhausted")
                     return
                 params = dict(c["params"], route=route)
-                for k in ("strip_exponent", "interface", "init"):
+                for k in ("strip_exponent", "interface", "init", "diis"):
                     params.pop(k, None)
+                c["o"]["diis"] = False
 
                 def thunk(c=c, route=route):
                     o = c["o"]
@@ -1105,8 +1129,9 @@ def gauging(cx):
             G = grng.normal(size=(D, D)) + (1j * grng.normal(size=(D, D)) if data == "complex" else 0.0)
             cG["o"]["damping"] = min(cG["o"]["damping"], 0.3)
             params = dict(cG["params"], damping=cG["o"]["damping"], where=list(where), n_gate_sites=len(where))
-            for k in ("strip_exponent", "interface"):
+            for k in ("strip_exponent", "interface", "diis"):
                 params.pop(k, None)
+            cG["o"]["diis"] = False
 
             def gthunk(c=cG, where=where, G=G):
                 nn = len(c["inds"])
@@ -1677,3 +1702,51 @@ def bp_objects(cx):
 
                 cx.check("converged BP object on a tree: normalisation methods keep contract() exact; loop / cluster "
                          "corrections are trivial (value stays exact)", params, thunk)
+
+
+# ----------------------------------------------------------------------------------------------
+# exactly zero-valued acyclic networks
+# ----------------------------------------------------------------------------------------------
+
+@driver("C14", "zero-valued-trees", chunks=1, timeout=120,
+        bound="chains of 2..5 tensors whose two end tensors are supported on different values of their bond (diagonal positive "
+              "tensors in between), so that the value (one-norm flavours) resp. the state (two-norm flavours, with one outer "
+              "label on each end) is exactly zero; bond dimensions 2..3; default options, scalar and (mantissa, exponent) "
+              "return forms: the returned value is exactly 0 (not NaN)")
+def zero_valued(cx):
+    import quimb.tensor as qtn
+    import quimb.tensor.belief_propagation as qbp
+
+    rng = cx.rng
+    for flavour, n, d, strip in itertools.product(["D1BP", "HD1BP", "HV1BP", "L1BP", "D2BP", "L2BP"], [2, 3, 5], [2, 3],
+                                                  [False, True]):
+        two = flavour in ("D2BP", "L2BP")
+        diag = [rng.uniform(0.5, 1.5, size=d) for _ in range(n - 2)]
+        v, w = rng.uniform(0.5, 1.5, size=2), rng.uniform(0.5, 1.5, size=2)
+        params = dict(flavour=flavour, n=n, d=d, strip_exponent=strip, zero_value=True)
+
+        def thunk(flavour=flavour, n=n, d=d, strip=strip, diag=diag, v=v, w=w, two=two):
+            e0, e1 = np.zeros(d), np.zeros(d)
+            e0[0], e1[d - 1] = 1.0, 2.0
+            ts = []
+            first = np.multiply.outer(e0, v) if two else e0
+            last = np.multiply.outer(e1, w) if two else e1
+            ts.append(qtn.Tensor(first, ["e0"] + (["k0"] if two else []), tags=["I0"]))
+            for q, dd in enumerate(diag):
+                ts.append(qtn.Tensor(np.diag(dd), [f"e{q}", f"e{q + 1}"], tags=[f"I{q + 1}"]))
+            ts.append(qtn.Tensor(last, [f"e{n - 2}"] + (["k1"] if two else []), tags=[f"I{n - 1}"]))
+            tn = qtn.TensorNetwork(ts)
+            info = {}
+            fn = getattr(qbp, "contract_" + flavour.lower())
+            kw = dict(site_tags=[f"I{q}" for q in range(n)]) if flavour in ("L1BP", "L2BP") else {}
+            r = fn(tn, strip_exponent=strip, info=info, **kw)
+            if strip and not (isinstance(r, tuple) and len(r) == 2):
+                return f"strip_exponent=True returned {r!r}"
+            m = r[0] if strip else r
+            if not np.isfinite(complex(m)):
+                return f"value of an exactly zero-valued chain: {r!r} (expected 0)"
+            if complex(m) != 0:
+                return f"value of an exactly zero-valued chain: {r!r} (expected exactly 0)"
+            return None
+
+        cx.check("contract_*bp on an acyclic network whose exact value is 0 returns 0", params, thunk)
